@@ -18,9 +18,10 @@ TR = []          # the trace of the request being executed
 SIDE = {}        # side observations of the request being executed (not part of the trace)
 LISTEN = {}      # what the transport-level listeners of the request being executed do to ctx.out_string
 AUX = {}         # what the auxiliary method of the request being executed does ('mode')
+GETP = ('http', 'httpout')     # protocols driven by GET requests without a body (HttpRpc in)
 USERHDR = []     # response header values the user function of the request being executed sets
 
-HDR_VALUES = {'str': lambda n: 'v', 'latin1': lambda n: 'caf\xe9', 'list': lambda n: ['v%d' % i for i in range(n)],
+HDR_VALUES = {'str': lambda n: 'v', 'addhdr': None, 'addhdr8': None, 'latin1': lambda n: 'caf\xe9', 'list': lambda n: ['v%d' % i for i in range(n)],
               'tuple': lambda n: tuple('v%d' % i for i in range(n))}
 
 
@@ -50,7 +51,32 @@ ITERKIND = {'gen': 'generator', 'chain': 'iterator', 'iter': 'iterator', 'map': 
 
 def set_user_headers(ctx):
     for i, h in enumerate(USERHDR):
-        ctx.transport.resp_headers['X-U%d' % i] = HDR_VALUES[h['k']](h.get('n', 0))
+        if h['k'] == 'addhdr':          # the transport's own helper (gen_header / _formatparam)
+            ctx.transport.add_header('X-U%d' % i, 'attachment', filename='report.pdf', inline=None, size='',
+                                     name=('utf-8', 'en', 'x y'))
+        elif h['k'] == 'addhdr8':       # ... with a value that needs RFC 2231 encoding
+            ctx.transport.add_header('X-U%d' % i, 'attachment', filename='Fu\xdfballer.ppt')
+        else:
+            ctx.transport.resp_headers['X-U%d' % i] = HDR_VALUES[h['k']](h.get('n', 0))
+
+
+class Closeable(object):
+    """something user code registers in ctx.files: MethodContext.close() has to close it, once, after the body"""
+
+    def close(self):
+        SIDE['file_closed'] = SIDE.get('file_closed', 0) + 1
+        SIDE['file_closed_at'] = len(TR)
+
+
+def use_transport_helpers(ctx):
+    """the convenience getters of WsgiTransportContext; a failure here is a failure of user code"""
+    t = ctx.transport
+    t.get_url(); t.get_path(); t.get_path_and_qs(); t.get_peer(); t.get_request_method(); t.get_request_content_type()
+    t.get_mime_type()
+    if t.req_env.get('HTTP_COOKIE') is None or 'k=' in t.req_env['HTTP_COOKIE']:
+        t.get_cookie('k')
+    ctx.files.append(Closeable())
+    SIDE['file_registered'] = True
 
 FC_OF_CODE = {'Client.RequestTooLong': 'tooLong', 'Client.ResourceNotFound': 'notFound',
               'Client.RequestNotAllowed': 'notAllowed', 'Client.InvalidCredentialsError': 'invalidCreds'}
@@ -74,7 +100,9 @@ def impl_env():
     if _ENV:
         return _ENV
     logging.disable(logging.CRITICAL)
-    from spyne import Application, Service, rpc, Unicode, Integer, Iterable, Fault
+    from spyne import Application, Service, rpc, Unicode, Integer, Iterable, Fault, Ignored, ComplexModel, ByteArray
+    from spyne.protocol.http import HttpPattern
+    from spyne.server.http import HttpRedirect
     from spyne.error import (ResourceNotFoundError, InvalidCredentialsError, RequestNotAllowed,
                              RequestTooLongError)
     from spyne.protocol.soap import Soap11
@@ -89,12 +117,85 @@ def impl_env():
                 'notAllowed': lambda: RequestNotAllowed('x'), 'tooLong': lambda: RequestTooLongError(),
                 'crash': lambda: RuntimeError('boom')}[kind]()
 
+    class OutHdr(ComplexModel):
+        __namespace__ = 'tns'
+        x = Unicode
+        n = Integer
+
     class Svc(Service):
+        __out_header__ = OutHdr
+
         @rpc(Unicode, _returns=Unicode)
         def echo(ctx, s):
             TR.append(['user'])
             set_user_headers(ctx)
+            use_transport_helpers(ctx)
             return s
+
+        # ---- further ways a call can end (round 4: anchored code the first rounds never reached)
+        @rpc(Unicode, _returns=Unicode)
+        def ign(ctx, s):                # spyne.Ignored: "no return value"
+            TR.append(['user'])
+            set_user_headers(ctx)
+            return Ignored()
+
+        @rpc(Unicode, _returns=(Unicode, Integer))
+        def ign2(ctx, s):               # ... for a method with several return values
+            TR.append(['user'])
+            set_user_headers(ctx)
+            return Ignored()
+
+        @rpc(Unicode, _returns=Unicode)
+        def redir(ctx, s):              # HttpRedirect -> HttpTransportContext.respond(302, location=...)
+            TR.append(['user'])
+            set_user_headers(ctx)
+            raise HttpRedirect(ctx, 'http://elsewhere.example/' + (s or ''))
+
+        @rpc(Unicode, _returns=Unicode)
+        def respond(ctx, s):            # respond() with a code that has no body
+            TR.append(['user'])
+            set_user_headers(ctx)
+            ctx.transport.respond('204 No Content')
+            return s
+
+        @rpc(Unicode, _returns=Unicode, _patterns=[HttpPattern('/p/<s>')])
+        def pat(ctx, s):                # routed by an HttpPattern (HttpBase.match_pattern)
+            TR.append(['user'])
+            set_user_headers(ctx)
+            return s
+
+        @rpc(Unicode, _returns=Unicode, _patterns=[HttpPattern('/q/<s>', verb='GET'),
+                                                   HttpPattern('/v/<s>', verb='(PUT|DELETE)')])
+        def pat2(ctx, s):               # patterns bound to a verb / a host
+            TR.append(['user'])
+            set_user_headers(ctx)
+            return s
+
+        @rpc(Unicode, _returns=Unicode)
+        def swap(ctx, s):               # the user function replaces the out protocol (and with it the mime type)
+            TR.append(['user'])
+            set_user_headers(ctx)
+            ctx.out_protocol = JsonDocument()
+            return s
+
+        @rpc(Unicode, _returns=Unicode)
+        def oh(ctx, s):                 # an out header: HttpRpc as out protocol turns it into response headers
+            TR.append(['user'])
+            set_user_headers(ctx)
+            ctx.out_header = OutHdr(x='hv', n=5)
+            return s
+
+        @rpc(Unicode, _returns=Unicode)
+        def frozen(ctx, s):             # MethodContext is frozen: ValueError inside user code
+            TR.append(['user'])
+            set_user_headers(ctx)
+            ctx.no_such_attribute = 1
+            return s
+
+        @rpc(Unicode, _returns=ByteArray, _mtom=True)
+        def mt(ctx, s):                 # MTOM packaging of the response (Soap11 only)
+            TR.append(['user'])
+            return [b'abc' * 10]
 
         @rpc(Integer(ge=0), _returns=Integer)
         def val(ctx, n):
@@ -123,6 +224,8 @@ def impl_env():
                 yield 'item%d' % i
                 if mode == 'late':
                     raise RuntimeError('late')
+                if mode and mode.startswith('late:'):
+                    raise mkfault(mode[5:])
 
         @rpc(Unicode, Unicode, Unicode, _returns=Unicode)
         def raw(ctx, sizes, lazy, code):
@@ -187,6 +290,8 @@ def impl_env():
         elif proto == 'jsonp':
             from spyne.protocol.json import JsonP
             app = Application(svcs, 'tns', in_protocol=JsonDocument(validator='soft'), out_protocol=JsonP('cb'))
+        elif proto == 'httpout':
+            app = Application(svcs, 'tns', in_protocol=HttpRpc(validator='soft'), out_protocol=HttpRpc())
         else:
             app = Application(svcs, 'tns', in_protocol=HttpRpc(validator='soft'), out_protocol=JsonDocument())
         w = WsgiApplication(app, chunked=chunked, max_content_length=mx, block_length=block)
@@ -225,6 +330,12 @@ def impl_env():
                 ctx.out_string = [b'z' * k for k in r]
                 SIDE['exc_listener_ran'] = True
         w.event_manager.add_listener('wsgi_exception', rewrite_exc)
+
+        # a handler of the in-protocol's before_deserialize event that fails with something that is not a Fault
+        def deser_boom(ctx):
+            if LISTEN.get('deser'):
+                raise RuntimeError('before_deserialize handler failed')
+        app.in_protocol.event_manager.add_listener('before_deserialize', deser_boom)
 
         # finalisation listeners that raise the first time they are called (registered after the observers)
         def boom(kind):
@@ -290,10 +401,12 @@ SOAP_ENV = ('<soap:Envelope xmlns:soap="http://schemas.xmlsoap.org/soap/envelope
 def request_doc(case):
     """bytes of the meaningful request document of an rpc case (b'' for HttpRpc GET)"""
     proto, call = case['proto'], case['call']
-    if proto == 'http':
+    if proto in GETP:
         return b''
     if call['m'] == '#junk':
         return b'<junk' if proto == 'soap' else b'{junk'
+    if call['m'] == '#doc':
+        return bytes.fromhex(call['args']['hex'])
     args = {k: v for k, v in call.get('args', {}).items() if v is not None}
     name = 'nosuch' if call['m'] == '#unknown' else call['m']
     if proto == 'soap':
@@ -312,11 +425,15 @@ def environ_of(case, doc):
         env.update(REQUEST_METHOD='GET', PATH_INFO='/', QUERY_STRING='wsdl')
         if case.get('wsdl_by_path'):
             env.update(PATH_INFO='/svc.wsdl', QUERY_STRING='')
-    elif case['proto'] == 'http':
+    elif case['proto'] in GETP:
         call = case['call']
         name = 'nosuch' if call['m'] == '#unknown' else call['m']
         args = {k: v for k, v in call.get('args', {}).items() if v is not None}
-        env.update(REQUEST_METHOD='GET', PATH_INFO='/' + name, QUERY_STRING=urlencode(args))
+        env.update(REQUEST_METHOD='GET', PATH_INFO='/' + name, QUERY_STRING=case.get('qs_prefix', '') + urlencode(args))
+        if name == 'pat':
+            env.update(PATH_INFO='/p/' + str(args.get('s', 'x')), QUERY_STRING='')
+        if name == 'pat2':
+            env.update(PATH_INFO=case.get('route', '/q/') + str(args.get('s', 'x')), QUERY_STRING='')
     else:
         env.update(REQUEST_METHOD=case.get('verb', 'POST'), PATH_INFO='/', QUERY_STRING='')
         ct = case.get('ctype', 'text/xml; charset=utf-8' if case['proto'] == 'soap' else 'application/json')
@@ -324,6 +441,7 @@ def environ_of(case, doc):
             env['CONTENT_TYPE'] = ct
     if case.get('cl') is not None:
         env['CONTENT_LENGTH'] = case['cl']
+    env.update(case.get('env') or {})
     return env
 
 
@@ -360,6 +478,8 @@ def execute(case, validate=False):
         LISTEN['exc'] = case['on_exception']
     if case.get('close_listener'):
         LISTEN['close'] = case['close_listener']
+    if case.get('deser_raises'):
+        LISTEN['deser'] = True
     SIDE['doc_len'] = len(doc)
     calls = []
 
@@ -455,7 +575,7 @@ def model_query(case, side, ref):
     `ref`: chunk sizes of a protocol-serialised response learnt from a fully consumed reference run."""
     cfg = case['cfg']
     req = {'wsdl': None, 'wsdlLen': 0, 'soapOut': case['proto'] == 'soap', 'soapIn': case['proto'] == 'soap',
-           'preReject': False, 'readsBody': case['proto'] != 'http', 'cl': None, 'docLen': side.get('doc_len', 0),
+           'preReject': False, 'readsBody': case['proto'] not in GETP, 'cl': None, 'docLen': side.get('doc_len', 0),
            'faultLen': side.get('faultLen', 0), 'intended': 'malformed', 'fc': 'client', 'preset': None,
            'gen': 'none', 'serFails': False, 'chunks': [], 'sized': False}
     if case.get('cl') is not None:
@@ -468,9 +588,14 @@ def model_query(case, side, ref):
             req['preReject'] = True
         call = case['call']
         m, a = call['m'], call.get('args', {})
-        if m == '#junk':
+        if m in ('#junk', '#doc') or case.get('expect') == 'malformed':
             req['intended'] = 'malformed'
-        elif m == '#unknown':
+        elif case.get('deser_raises') and m != '#unknown':
+            req['intended'] = 'inputHandlerFails'
+        elif m == 'frozen':
+            req['intended'] = 'userFault'
+            req['fc'] = 'server'
+        elif m == '#unknown' or case.get('expect') == 'unknown':
             req['intended'] = 'unknown'
         elif m == 'val' and a.get('n', 0) < 0:
             req['intended'] = 'validation'
@@ -487,14 +612,21 @@ def model_query(case, side, ref):
             else:
                 req['chunks'] = ref.get('chunks', [])
                 req['sized'] = ref.get('sized', False)
+                if m == 'mt':           # (MTOM packaging fails under Python 3: when guarded, a serialisation failure)
+                    req['serFails'] = True
+                if m == 'redir':
+                    req['preset'] = 302
+                if m == 'respond':
+                    req['preset'] = 204
                 if m == 'gen':
                     mode = a.get('mode') or ''
                     if mode.startswith('raises:'):
                         req['gen'] = 'raises'
                         req['fc'] = 'server' if mode[7:] == 'crash' else mode[7:]
-                    elif mode == 'late':
+                    elif mode == 'late' or mode.startswith('late:'):
                         req['gen'] = 'yields'
                         req['serFails'] = True
+                        req['serFc'] = 'server' if mode in ('late', 'late:crash') else mode[5:]
                     elif (a.get('n') or 0) == 0:
                         req['gen'] = 'empty'
                     else:
@@ -536,7 +668,7 @@ def reference(case):
             _REF[key] = {'wsdlLen': sum(e[1] for e in tr if e[0] == 'chunk')}
         return _REF[key]
     call = case['call']
-    if call['m'] in ('raw', 'fail', '#junk', '#unknown'):
+    if call['m'] in ('raw', 'fail', 'frozen', 'mt', '#junk', '#unknown', '#doc'):
         return {}
     key = (case['proto'], json.dumps(call, sort_keys=True))
     if key not in _REF:
@@ -611,7 +743,7 @@ def oracle(case, tr, side, calls):
     if got > cfg['max']:
         out.append(('read-over-limit', '%d bytes read with max_content_length=%d' % (got, cfg['max'])))
     # a body longer than max_content_length is refused with the request-too-long fault, no user code
-    if kind == 'rpc' and case['proto'] != 'http' and not is_prereject(case) and not crashes:
+    if kind == 'rpc' and case['proto'] not in GETP and not is_prereject(case) and not crashes:
         d = declared_int(case)
         real = sum(case.get('plan') or [])
         which = None
@@ -635,6 +767,14 @@ def oracle(case, tr, side, calls):
             c = closed[0]
             if (rets and c < rets[0]) or any(i > c for i in chunks) or (chunks and c < chunks[-1]):
                 out.append(('close-before-body:' + site, 'the context is closed before the response body has been handed over'))
+    # what user code registered in ctx.files is closed with the context: once, and not before the body was handed over
+    # (a raising method_context_closed listener ends MethodContext.close() before it gets to the files: the listener's fault)
+    if side.get('file_registered') and not crashes and case.get('close_listener') != 'ctx':
+        n = side.get('file_closed', 0)
+        if n != 1:
+            out.append(('ctx-files-closed-%d-times:%s' % (n, site), 'a file registered in ctx.files was closed %d times' % n))
+        elif (rets and side['file_closed_at'] <= rets[0]) or (chunks and side['file_closed_at'] <= chunks[-1]):
+            out.append(('ctx-files-closed-before-body:' + site, 'ctx.files closed before the response body was handed over'))
     return out
 
 
@@ -662,7 +802,7 @@ def mkcase(proto, m, args=None, **kw):
     c.update(kw)
     doc = request_doc(c)
     if 'cl' not in kw:
-        c['cl'] = str(len(doc)) if proto != 'http' else None
+        c['cl'] = str(len(doc)) if proto not in GETP else None
     if 'plan' not in kw:
         c['plan'] = filelike(len(doc), c['cfg']['block'])
     return c
@@ -855,7 +995,7 @@ CALLS = [
     ('#junk', {}), ('#unknown', {}),
     ('gen', {'n': 3}), ('gen', {'n': 1}), ('gen', {'n': 0}), ('gen', {'n': 2, 'mode': 'late'}),
     ('gen', {'n': 2, 'mode': 'raises:client'}), ('gen', {'n': 2, 'mode': 'raises:crash'}),
-    ('gen', {'n': 0, 'mode': 'raises:notFound'}),
+    ('gen', {'n': 0, 'mode': 'raises:notFound'}), ('gen', {'n': 2, 'mode': 'late:client'}), ('gen', {'n': 1, 'mode': 'late:notFound'}),
     ('raw', {'sizes': '1,2,3', 'lazy': 'gen'}), ('raw', {'sizes': '1,2,3', 'lazy': 'list'}),
     ('raw', {'sizes': '5', 'lazy': 'tuple'}), ('raw', {'sizes': '', 'lazy': 'gen'}), ('raw', {'sizes': '', 'lazy': 'list'}),
     ('raw', {'sizes': '0,0,4', 'lazy': 'gen', 'code': '201 Created'}), ('raw', {'sizes': '2,2', 'lazy': 'list', 'code': '202 Accepted'}),
@@ -864,6 +1004,78 @@ CALLS = [
 ] + [('fail', {'kind': 'server', 'sizes': '6', 'lazy': 'chain', 'code': '503 Busy'})
 ] + [('fail', {'kind': k}) for k in FAULT_KINDS + ['crash']] + [('fail', {'kind': 'client', 'code': '418 Teapot'}),
                                                                  ('fail', {'kind': 'tooLong', 'code': '409 Conflict'})]
+
+# round 4: further outcomes / routes / documents / environments (no auxiliary counterpart is declared for these methods)
+CALLS2 = [('ign', {'s': 'a'}), ('ign2', {'s': 'a'}), ('redir', {'s': 'a'}), ('respond', {'s': 'a'}), ('swap', {'s': 'a'}),
+          ('oh', {'s': 'a'}), ('frozen', {'s': 'a'})]
+HTTPOUT_CALLS = [('echo', {'s': 'hi'}), ('val', {'n': 3}), ('val', {'n': -3}), ('#unknown', {}), ('fail', {'kind': 'client'}),
+                 ('fail', {'kind': 'crash'}), ('fail', {'kind': 'tooLong', 'code': '409 Conflict'}),
+                 ('raw', {'sizes': '1,2,3', 'lazy': 'chain'}), ('raw', {'sizes': '2,2', 'lazy': 'list', 'code': '202 Accepted'}),
+                 ('pat', {'s': 'abc'})] + [c for c in CALLS2 if c[0] != 'ign2']      # (HttpRpc cannot serialise two return values)
+_ENVELOPE = '<soap:Envelope xmlns:soap="http://schemas.xmlsoap.org/soap/envelope/" xmlns:tns="tns">%s</soap:Envelope>'
+DOCS = {'json': [b'[]', b'null', b'5', b'"x"', b'{}', b'{"a":{},"b":{}}', b'{"echo": 5}', b'{"echo": {"s": {"x": 1}}}',
+                 b'{"echo": {"s": ["a","b"]}}', b'{"echo": [1, 2, 3]}', b'\xff\xfe'],
+        'soap': [b'<a/>', (_ENVELOPE % '').encode(), (_ENVELOPE % '<soap:Body/>').encode(), b'\xff\xfe<a/>',
+                 (_ENVELOPE % '<soap:Header/>').encode()]}
+DOCS['jsonp'] = DOCS['json']
+ENVS = [{'HTTP_HOST': 'example.org:8080', 'HTTP_X_FOO': 'bar', 'HTTP_COOKIE': 'k=v; other=1', 'REMOTE_ADDR': '127.0.0.1', 'REMOTE_PORT': '5555'},
+        {'REMOTE_ADDR': '::1', 'REMOTE_PORT': '5555', 'HTTP_X_FORWARDED_FOR': '10.0.0.1'},
+        {'wsgi.url_scheme': 'https', 'SERVER_PORT': '8443'}, {'wsgi.url_scheme': 'https', 'SERVER_PORT': '443'},
+        {'SERVER_PORT': '8080'}, {'SCRIPT_NAME': '/app'}, {'SCRIPT_NAME': '//app', 'HTTP_HOST': 'h'}]
+HDRS4 = [[{'k': 'addhdr'}], [{'k': 'addhdr8'}, {'k': 'tuple', 'n': 2}]]
+
+
+def gen_round4(ctx, add):
+    rng = ctx.rng
+    i = 0
+    for proto in ('soap', 'json', 'jsonp', 'http', 'httpout'):
+        calls = HTTPOUT_CALLS if proto == 'httpout' else CALLS2 + ([('pat', {'s': 'abc'})] if proto in GETP else [])
+        for m, a in calls:
+            for chunked in (True, False):
+                for abort, noclose, cl_l in ((None, False, None), (1, False, None), (None, True, 'ctx'), (0, False, 'wsgi')):
+                    i += 1
+                    add(mkcase(proto, m, a, cfg=dict(BASE_CFG, chunked=chunked), abort=abort, noclose=noclose, close_listener=cl_l,
+                               headers=(HDRS4[i % 2] if i % 3 == 0 else None),
+                               on_return=({'sizes': [3, 1], 'lazy': 'chain'} if i % 5 == 0 else None),
+                               on_exception=([2, 2] if i % 7 == 0 else None)), 'round4-outcomes')
+        # documents that are not requests
+        for d in DOCS.get(proto, []):
+            for chunked in (True, False):
+                add(mkcase(proto, '#doc', {'hex': d.hex()}, cfg=dict(BASE_CFG, chunked=chunked), abort=rng.choice([None, None, 0])), 'round4-docs')
+        # environments: Host header, https, ports, SCRIPT_NAME, request headers, cookies (URL reconstruction runs on every request)
+        for e in ENVS:
+            add(mkcase(proto, 'echo', {'s': 'hi'}, env=e), 'round4-env')
+            add(mkcase(proto, 'fail', {'kind': 'client'}, env=e, abort=1), 'round4-env')
+            if proto in ('soap', 'json'):
+                add({'kind': 'wsdl', 'wsdl': 'ok', 'proto': proto, 'cfg': dict(BASE_CFG), 'abort': None, 'env': e}, 'round4-env')
+        for h in HDRS4:
+            add(mkcase(proto, 'echo', {'s': 'hi'}, headers=h), 'round4-headers')
+            add(mkcase(proto, 'fail', {'kind': 'server'}, headers=h, cfg=dict(BASE_CFG, chunked=False)), 'round4-headers')
+    # character sets announced for the request, a query string with a valueless name
+    for ct, expect in (('application/json; charset=latin-1', None), ('application/json; charset=bogus', 'malformed'),
+                       ('application/json; charset=utf-16', 'malformed'), ('text/plain', None)):
+        for proto in ('json', 'jsonp'):
+            add(mkcase(proto, 'echo', {'s': 'hi'}, ctype=ct, expect=expect), 'round4-charset')
+    add(mkcase('soap', 'echo', {'s': 'hi'}, ctype='text/xml; charset=bogus', expect='malformed'), 'round4-charset')
+    add(mkcase('soap', 'echo', {'s': 'hi'}, ctype='text/xml; charset=latin-1'), 'round4-charset')
+    for proto in GETP:
+        add(mkcase(proto, 'echo', {'s': 'hi'}, qs_prefix='flag&'), 'round4-qs')
+        add(mkcase(proto, 'echo', {'s': 'hi'}, qs_prefix='s=again&', expect='malformed'), 'round4-qs')
+    # patterns bound to a verb / a host: matching, non-matching (falls back to the last path segment), verb groups
+    for proto in GETP:
+        # (HttpPattern(host=...) cannot even be declared under Python 3: its regex helper mixes str and bytes)
+        for route, env, expect in (('/q/', None, None), ('/q/', {'HTTP_HOST': 'example.org:8080'}, None),
+                                   ('/v/', None, 'unknown'), ('/zzz/', None, 'unknown')):
+            add(mkcase(proto, 'pat2', {'s': 'abc'}, route=route, env=env, expect=expect), 'round4-patterns')
+    # a before_deserialize handler of the in-protocol that raises something that is not a Fault
+    for proto in ('soap', 'json', 'jsonp', 'http', 'httpout'):
+        for m, a in (('echo', {'s': 'hi'}), ('val', {'n': -3}), ('fail', {'kind': 'client'}), ('#unknown', {})):
+            for abort in (None, 1):
+                add(mkcase(proto, m, a, deser_raises=True, abort=abort, cfg=dict(BASE_CFG, chunked=abort is None)), 'round4-deser-handler')
+    # MTOM packaging of the response (a serialisation failure when guarded, see fixes/C13-09)
+    for chunked in (True, False):
+        add(mkcase('soap', 'mt', {'s': 'a'}, cfg=dict(BASE_CFG, chunked=chunked)), 'round4-mtom')
+
 
 CL_TEXTS = ['abc', '', '-1', '0', ' 12 ', '+5', '1_0', '1__0', '12a', '0x10', '1.0', '1e3', '007', '-0', '1 2', '--1', '\t9\n']
 
@@ -915,7 +1127,7 @@ def gen_cases(ctx):
     for proto in ('soap', 'json', 'jsonp', 'http'):
         for chunked in (True, False):
             for m, a in CALLS:
-                if proto == 'http' and m == '#junk':
+                if proto in GETP and m == '#junk':
                     continue        # HttpRpc GET has no request document
                 for abort in (None, 0, 1, 2, 5):
                     if abort in (2, 5) and m != 'raw':
@@ -930,7 +1142,7 @@ def gen_cases(ctx):
     for proto in ('soap', 'json', 'jsonp', 'http'):
         for chunked in (True, False):
             for m, a in CALLS:
-                if proto == 'http' and m == '#junk':
+                if proto in GETP and m == '#junk':
                     continue
                 for i, (r, e) in enumerate([(r, e) for r in RET for e in EXC][::3]):
                     add(mkcase(proto, m, a, cfg=dict(BASE_CFG, chunked=chunked), abort=[None, 1, None, 0][i % 4],
@@ -943,7 +1155,7 @@ def gen_cases(ctx):
     i = 0
     for proto in ('soap', 'json', 'jsonp', 'http'):
         for m, a in CALLS:
-            if proto == 'http' and m == '#junk':
+            if proto in GETP and m == '#junk':
                 continue
             for ak in AUXK:
                 for onerr in (False, True):
@@ -958,7 +1170,7 @@ def gen_cases(ctx):
     i = 0
     for proto in ('soap', 'json', 'jsonp', 'http'):
         for m, a in CALLS:
-            if proto == 'http' and m == '#junk':
+            if proto in GETP and m == '#junk':
                 continue
             for kind in ('ctx', 'wsgi'):
                 for abort, noclose in ((None, False), (None, True), (0, False), (1, False), (9, False)):
@@ -971,6 +1183,7 @@ def gen_cases(ctx):
         for abort, noclose in ((None, False), (None, True), (0, False), (1, False), (2, False)):
             add({'kind': 'wsdl', 'wsdl': k, 'proto': 'soap', 'cfg': dict(BASE_CFG), 'abort': abort, 'noclose': noclose,
                  'close_listener': 'ctx'}, 'close-listener')
+    gen_round4(ctx, add)
     # -- Soap11 refusing verb / content type before reading
     for chunked in (True, False):
         add(dict(mkcase('soap', 'echo', {'s': 'hi'}, cfg=dict(BASE_CFG, chunked=chunked)), verb='GET'), 'prereject')
@@ -1014,7 +1227,7 @@ def gen_cases(ctx):
     for _ in range(n):
         proto = rng.choice(['json', 'json', 'soap', 'http', 'jsonp'])
         m, a = rng.choice(CALLS + [c for c in CALLS if c[0] == 'raw'])
-        if proto == 'http' and m == '#junk':
+        if proto in GETP and m == '#junk':
             m = '#unknown'
         if m == 'raw' and rng.random() < 0.7:
             k = rng.randrange(0, 6)
@@ -1030,8 +1243,8 @@ def gen_cases(ctx):
         real = min(real, 4000)
         cl = rng.choice(cl_choices(doc_len, mx, real) + [str(doc_len)] * 6 + [None] * 2)
         c = mkcase(proto, m, a, cfg={'chunked': rng.random() < 0.6, 'max': mx, 'block': block},
-                   cl=(None if proto == 'http' and rng.random() < 0.8 else (cl if proto != 'http' else rng.choice([None, '', '0']))),
-                   plan=rng.choice(plans(rng, real, block)) if proto != 'http' else [],
+                   cl=(None if proto in GETP and rng.random() < 0.8 else (cl if proto not in GETP else rng.choice([None, '', '0']))),
+                   plan=rng.choice(plans(rng, real, block)) if proto not in GETP else [],
                    abort=rng.choice([None, None, None, 0, 1, 2, 3, 6]))
         if proto == 'soap' and rng.random() < 0.05:
             c['verb'] = rng.choice(['GET', 'PUT'])
@@ -1086,7 +1299,9 @@ def run(ctx):
         if case['kind'] == 'rpc' and case['call']['m'] not in ('raw',) and 'chunks' not in ref and side.get('sized') and 'chunks' in side:
             ref = dict(ref, chunks=side['chunks'], sized=True)
         q = model_query(case, side, ref)
-        Q.append((q, tr, case))
+        # (MTOM: apply_mtom is Python-2 code; while its failure escapes the callable it is a T3 finding only)
+        if not (case['kind'] == 'rpc' and case['call']['m'] == 'mt' and any(e[0] == 'crash' for e in tr)):
+            Q.append((q, tr, case))
         ctx.case({'case': {k: v for k, v in case.items() if k != 'tag'}}, nontrivial(case, tr))
         ctx.cov['traces_validated_against_impl'] += 1
         ctx.hit('tag:' + case['tag'])
@@ -1122,7 +1337,9 @@ def run(ctx):
             ctx.finding(fid, what, {'case': case, 'impl_trace': tr, 'side': side})
         # second opinion: wsgiref.validate around the app, only where the environment itself is valid
         d = declared_int(case)
-        if (case.get('cl') in (None, '') or (d is not None and d >= 0)) and not any(e[0] == 'crash' for e in tr):
+        # (not for the user's 204: wsgiref.validate objects to the Content-Type the transport keeps, which PEP 3333 does not)
+        if (case.get('cl') in (None, '') or (d is not None and d >= 0)) and not any(e[0] == 'crash' for e in tr) and \
+                not (case['kind'] == 'rpc' and case['call']['m'] == 'respond'):
             seen_val += 1
             if seen_val % (1 if ctx.thorough else 3) == 0 or case.get('headers') or case.get('aux'):
                 tr2, side2, _ = execute(case, validate=True)
